@@ -157,6 +157,7 @@ class Env(object):
         self.open_by = {}
         self.mutated = False
         self.policy_flip = 0
+        self.write_hook = None    # called with the bytes of every bulk_write (harness-side effects tied to an instant of the execution)
 
     def _frame(self):
         """Next device frame for the wire (None when nothing is ready), with the scenario's wire mutation applied."""
@@ -243,6 +244,10 @@ class Env(object):
         if kind == 'eof':
             self.sticky = 'eof'
             return True
+        if kind == 'halfclose':
+            # the peer shut down its sending side only: reads return b'' from now on, writes are still accepted (and go nowhere)
+            self.sticky = 'halfclose'
+            return True
         raise HarnessError('unknown fault kind %r' % (kind,))
 
     def t_read(self, n, timeout):
@@ -326,7 +331,10 @@ class Env(object):
         if kind:
             if kind == 'eof':
                 kind = 'reset'          # writing to a closed peer
-            self._fault(kind, timeout)
+            if self._fault(kind, timeout):
+                return len(data)        # half-closed connection: accepted, never delivered
+        if self.write_hook is not None:
+            self.write_hook(data)
         n = len(data)
         k = n
         if self.wcap_global:
